@@ -187,6 +187,12 @@ fn gen_key(rng: &mut Rng, nkeys: u64, cfg: &Cfg) -> Vec<u8> {
             _ => vec![b'w'; 102401],
         };
     }
+    if !cfg.persistent && rng.chance(1, 12) {
+        // memory-only stores take keys up to 100 KiB: lengths around 2^16 (the width of the
+        // record's own length field) and the maximum, repeated so that they get updated and deleted
+        let n = *rng.pick(&[65_535usize, 65_536, 65_537, 70_000, 102_400]);
+        return vec![b'K'; n];
+    }
     if cfg.persistent && rng.chance(1, 40) {
         let n = if cfg.version == 1 { 4074 } else { 4066 };
         let mut k = vec![b'L'; n];
@@ -241,7 +247,8 @@ fn gen_ttl(rng: &mut Rng) -> u64 {
         0 => 0,
         1 => rng.range(1, 3000),
         2 => u64::MAX,
-        3 => u64::MAX / 1_000_000_000,
+        // around the largest number of seconds whose nanoseconds still fit in 64 bits
+        3 => *rng.pick(&[u64::MAX / 1_000_000_000, u64::MAX / 1_000_000_000 + 1, u64::MAX / 1_000_000_000 + 2, 2 * (u64::MAX / 1_000_000_000) + 5, u64::MAX / 2]),
         _ => rng.range(7200, 200_000),
     }
 }
@@ -305,6 +312,13 @@ pub fn run_sequence(cfg: &Cfg, seed: u64, nops: usize, path: &str) -> (String, S
             1 => Some(Val::Rand(seed + 1, cfg.limit.unwrap_or(0))),
             _ => None,
         };
+        // memory-only stores without a limit: a key at or beyond 2^16 bytes is created, rewritten
+        // with a value of the same size, read and deleted
+        let big_step = if !cfg.persistent && cfg.limit.is_none() { i.wrapping_sub(nops / 3) } else { usize::MAX };
+        let big = big_step < 4;
+        let (key, kind) = if big { (vec![b'K'; 65_536 + (seed % 4) as usize * 9_000], [0u64, 0, 30, 42][big_step]) } else { (key, kind) };
+        let forced_value = if big && big_step < 2 { Some(Val::Rand(seed + big_step as u64, 64)) } else { forced_value };
+        let scripted = scripted || big;
         let kh = if key.len() > 300 { format!("@r{},{}", 0, 0) } else { hex(&key) };
         // long keys are passed as a generated spec: first byte + fill
         let (key, kh) = if key.len() > 300 {
@@ -391,6 +405,7 @@ pub fn run_sequence(cfg: &Cfg, seed: u64, nops: usize, path: &str) -> (String, S
             }
             40..=47 => {
                 let ts = gen_ts(&mut rng, r.store(), &key, now, cfg.extreme);
+                let ts = if scripted { None } else { ts };
                 let kts = r.key_ts(&key);
                 let tb = now_ns();
                 let res = if ts.is_none() && rng.chance(1, 2) { r.store().delete(&key) } else { r.store().delete_with_timestamp(&key, ts) };
